@@ -37,7 +37,12 @@ func (db *DB) SetMode(m mode.Mode) error {
 	}
 
 	if err != nil {
-		return fmt.Errorf("can't set metabase mode (old=%s, new=%s): %w", db.mode, m, err)
+		// The database is closed at this point, any access to it panics.
+		// Behave as in a degraded mode until the next successful switch.
+		oldMode := db.mode
+		db.boltDB = nil
+		db.mode = mode.DegradedReadOnly
+		return fmt.Errorf("can't set metabase mode (old=%s, new=%s): %w", oldMode, m, err)
 	}
 
 	db.mode = m
